@@ -37,7 +37,7 @@ TIMEOUT = {'quick': 900, 'thorough': 3600}
 FLOORS = {'accepted_and_drained': 50, 'illformed_submissions': 100, 'wellformed_with_dependencies': 50}
 
 MUTATIONS = ['none', 'none', 'self-parent', 'later-parent', 'missing-parent', 'parent-in-uncommitted-update', 'duplicate-parent', 'parent-id-zero',
-             'job-ids-outside-range', 'none']
+             'job-ids-outside-range', 'jobs-missing-head', 'jobs-missing-head', 'jobs-missing-tail', 'none']
 
 
 def gen_jobs(rng, n, n_prior):
@@ -85,6 +85,13 @@ def mutate(rng, jobs, kind, n_prior, foreign_ids):
         for x in jobs:
             x['job_id'] += shift
         return jobs, kind
+    elif kind in ('jobs-missing-head', 'jobs-missing-tail'):
+        # fewer jobs than the update reserved: the head (ids 1..k absent, the highest id present) or the tail is never sent.
+        # The reserved count stays n, so the batch could never reach n completed jobs; jobs naming an absent id can never run.
+        if n < 2:
+            return jobs, None
+        k = rng.randint(1, n - 1)
+        return (jobs[k:] if kind == 'jobs-missing-head' else jobs[: n - k]), kind
     elif kind == 'none':
         return jobs, 'none'
     for key in ('in_update_parent_ids', 'absolute_parent_ids'):
@@ -186,7 +193,8 @@ def one_case(ctx, i, rng):
                     ctx.count('illformed_accepted:' + applied)
                     ctx.violation(f'ill-formed-accepted/{applied}',
                                   f'{endpoint}: submission with {applied} was accepted (outcome {outcome}, {len(new_committed)} jobs committed)', {'case': info})
-                elif new_jobs:
+                elif new_jobs and not applied.startswith('jobs-missing'):
+                    # (an incomplete update legitimately keeps the bunches it received; what must be refused is its commit)
                     ctx.violation(f'rejected-but-jobs-inserted/{applied}', f'{endpoint}: rejected ({outcome}) but {len(new_jobs)} jobs of it remain inserted', {'case': info})
             else:
                 if has_dep:
